@@ -213,5 +213,15 @@ def pollRecvRound (x : Ctx) (st : FutSt) (again : Act) : Act :=
 def pollRecv (x : Ctx) : Act :=
   pollRecvRound x x.st (pollRecvRound x .zero .diverge)
 
+/-- `ReceiveStream::poll_next`: an ended stream keeps ending; otherwise one poll of the wrapped future, an error ends the stream -/
+def pollNext (x : Ctx) : Act :=
+  if x.terminated then .ret .streamEnd
+  else (pollRecv x).bind fun r =>
+    match r with
+    | .pending => .ret .pending
+    | .val d => .ret (.val d)
+    | .err _ => .eff .setTerminated (.ret .streamEnd)
+    | o => .ret o
+
 end Fine
 end Kanal
